@@ -51,6 +51,10 @@ CHECKS = {
  'C15': dict(sec='3/C15', tech='TLC on CMS.tla (all hash functions, all bounded streams; bounded counter) + replay of every counter stream + TraceCMS.tla on recorded real count-min streams',
              text='CMS.tla chooses an arbitrary hash function at Init and explores every update stream: NeverUnder, NeverOverTotal, RowSumsAreTotal; the bounded counter machine is model-checked and every stream replayed on the real class; real CountMinSketch objects of many shapes and seeds are driven by seeded streams and each update (locations under the real hash, all query results, row sums) is validated by TraceCMS.tla against the model under a function Hash.',
              note='exhaustive for D<=3, W<=3, <=3 items, streams <=5; real streams seeded (40 quick / 400 thorough)'),
+
+ 'C16': dict(sec='3/C16', tech='TLC enumeration of Parsers.tla (character-level CSV/TSV/VW render+parse machines, namespace maps) + every rendered line through the real generic_line_parser / parse_namespace; wrong-arity lines through the real streaming loop',
+             text='Parsers.tla renders every row of a bounded space as CSV (RFC 4180), TAB-separated and VW lines and parses them back with a 4-state CSV reader, a split-on-TAB reader and the VW namespace grammar: RoundTripCSV, RoundTripTSV, ArityExact, VWFieldsInColumns; every rendered line is parsed by the real code under the matching data source with several character maps and must return exactly the cells; namespace maps over 7 line shapes; wrong-arity lines must be rejected as a whole by the real loop.',
+             note='cells of length <= 2 over 4-5 characters, <= 3-6 cells; VW: <=3 namespaces, <=2 tokens; multi-token prefix removal accepted in both readings'),
 }
 
 checks = []
